@@ -357,6 +357,32 @@ Definition f_nbs_nbs_bct : cmd :=
         Skip)
       Skip)
     Skip)).
+Definition f_nbs_parallel__permutation : cmd :=
+  (Choice (Call "nbs_parallel._permutation$rest" ESeed)
+  (Call "nbs_parallel._permutation$rest" EComputed)).
+Definition f_nbs_parallel__permutation_rest : cmd :=
+  (Seq (GetRng "rng" ESeed)
+  (Seq (Choice (DrawLocal "rng")
+      (DrawLocal "rng"))
+    (Seq (Loop (Choice (Call "nbs_parallel.ttest_paired_stat_only" ENone)
+          (Call "nbs_parallel.ttest2_stat_only" ENone)))
+      (Call "algorithms.clustering.get_components" ENone)))).
+Definition f_nbs_parallel_nbs_bct : cmd :=
+  (Choice (Choice (Choice (Seq (Loop (Choice (Call "nbs_parallel.ttest_paired_stat_only" ENone)
+            (Call "nbs_parallel.ttest2_stat_only" ENone)))
+        (Choice (Seq (Call "algorithms.clustering.get_components" ENone)
+            (Choice (Seq (Seq (GetRng "$rng177_17" ESeed)
+                  (DrawLocal "$rng177_17"))
+                (Loop (Call "nbs_parallel._permutation" (EDrawn "$rng177_17"))))
+              Skip))
+          Skip))
+      Skip)
+    Skip)
+  Skip).
+Definition f_nbs_parallel_ttest2_stat_only : cmd :=
+  Skip.
+Definition f_nbs_parallel_ttest_paired_stat_only : cmd :=
+  Skip.
 Definition f_utils__verif__snap : cmd :=
   (Choice (Choice (Loop (Call "utils._verif._snap" ENone))
     Skip)
@@ -417,41 +443,19 @@ Definition program : EffectLang.program :=
     ("algorithms.reference.randomizer_bin_und", (Seeded, f_algorithms_reference_randomizer_bin_und));
     ("algorithms.similarity.matching_ind", (Pure, f_algorithms_similarity_matching_ind));
     ("nbs.nbs_bct", (Seeded, f_nbs_nbs_bct));
+    ("nbs_parallel._permutation", (Seeded, f_nbs_parallel__permutation));
+    ("nbs_parallel._permutation$rest", (Seeded, f_nbs_parallel__permutation_rest));
+    ("nbs_parallel.nbs_bct", (Seeded, f_nbs_parallel_nbs_bct));
+    ("nbs_parallel.ttest2_stat_only", (Pure, f_nbs_parallel_ttest2_stat_only));
+    ("nbs_parallel.ttest_paired_stat_only", (Pure, f_nbs_parallel_ttest_paired_stat_only));
     ("utils._verif._snap", (Pure, f_utils__verif__snap));
     ("utils._verif.emit", (Pure, f_utils__verif_emit));
     ("utils.miscellaneous_utilities.dummyvar", (Pure, f_utils_miscellaneous_utilities_dummyvar));
     ("utils.miscellaneous_utilities.pick_four_unique_nodes_quickly", (Seeded, f_utils_miscellaneous_utilities_pick_four_unique_nodes_quickly));
     ("utils.other.binarize", (Pure, f_utils_other_binarize)) ].
 
-Definition f_nbs_parallel__permutation : cmd :=
-  (Seq (GetRng "rng" EOther)
-  (Seq (Choice (DrawLocal "rng")
-      (DrawLocal "rng"))
-    (Seq (Loop (Choice (Call "nbs_parallel.ttest_paired_stat_only" ENone)
-          (Call "nbs_parallel.ttest2_stat_only" ENone)))
-      (Call "algorithms.clustering.get_components" ENone)))).
-Definition f_nbs_parallel_nbs_bct : cmd :=
-  (Choice (Choice (Choice (Seq (Loop (Choice (Call "nbs_parallel.ttest_paired_stat_only" ENone)
-            (Call "nbs_parallel.ttest2_stat_only" ENone)))
-        (Choice (Seq (Call "algorithms.clustering.get_components" ENone)
-            (Choice (Seq (Seq DrawNpGlobal
-                  DrawNpGlobal)
-                (Call "nbs_parallel._permutation" EOther))
-              Skip))
-          Skip))
-      Skip)
-    Skip)
-  Skip).
-Definition f_nbs_parallel_ttest2_stat_only : cmd :=
-  Skip.
-Definition f_nbs_parallel_ttest_paired_stat_only : cmd :=
-  Skip.
 
-Definition excluded : EffectLang.program :=
-  [ ("nbs_parallel._permutation", (Pure, f_nbs_parallel__permutation));
-    ("nbs_parallel.nbs_bct", (Seeded, f_nbs_parallel_nbs_bct));
-    ("nbs_parallel.ttest2_stat_only", (Pure, f_nbs_parallel_ttest2_stat_only));
-    ("nbs_parallel.ttest_paired_stat_only", (Pure, f_nbs_parallel_ttest_paired_stat_only)) ].
+Definition excluded : EffectLang.program := [].
 
 (* get_rng is modelled by hand (EffectLang.get_rng); the translator compares the source with the version modelled *)
 Definition get_rng_as_modelled : bool := true.
@@ -467,4 +471,52 @@ Proof. reflexivity. Qed.
    multiprocessing) or carrying a recorded known finding with `static_exclude`, and what only they reach.
    Nothing in `program` may call them: the checker rejects calls to functions outside `program`. *)
 Example all_safe : prog_safe program = true.
+Proof. vm_compute. reflexivity. Qed.
+
+(* the functions of bct/ that accept a seed (a parameter named `seed`, or a task tuple unpacked into `seed, ...`), and
+   `<f>$rest` = the body of f after `if seed is None: seed = <number>`: every one of them is in `program` *)
+Definition seeded_functions : list string :=
+  [ "algorithms.clustering.consensus_und";
+    "algorithms.core.core_periphery_dir";
+    "algorithms.generative.evaluate_generative_model";
+    "algorithms.generative.generate_fc";
+    "algorithms.generative.generative_model";
+    "algorithms.models.mleme_constraint_model";
+    "algorithms.modularity.community_louvain";
+    "algorithms.modularity.modularity_finetune_dir";
+    "algorithms.modularity.modularity_finetune_und";
+    "algorithms.modularity.modularity_finetune_und_sign";
+    "algorithms.modularity.modularity_louvain_dir";
+    "algorithms.modularity.modularity_louvain_und";
+    "algorithms.modularity.modularity_louvain_und_sign";
+    "algorithms.modularity.modularity_probtune_und_sign";
+    "algorithms.physical_connectivity.rentian_scaling";
+    "algorithms.reference.latmio_dir";
+    "algorithms.reference.latmio_dir_connected";
+    "algorithms.reference.latmio_und";
+    "algorithms.reference.latmio_und_connected";
+    "algorithms.reference.makeevenCIJ";
+    "algorithms.reference.makefractalCIJ";
+    "algorithms.reference.makerandCIJ_dir";
+    "algorithms.reference.makerandCIJ_und";
+    "algorithms.reference.makerandCIJdegreesfixed";
+    "algorithms.reference.makeringlatticeCIJ";
+    "algorithms.reference.maketoeplitzCIJ";
+    "algorithms.reference.null_model_dir_sign";
+    "algorithms.reference.null_model_und_sign";
+    "algorithms.reference.randmio_dir";
+    "algorithms.reference.randmio_dir_connected";
+    "algorithms.reference.randmio_dir_signed";
+    "algorithms.reference.randmio_und";
+    "algorithms.reference.randmio_und_connected";
+    "algorithms.reference.randmio_und_signed";
+    "algorithms.reference.randomize_graph_partial_und";
+    "algorithms.reference.randomizer_bin_und";
+    "nbs.nbs_bct";
+    "nbs_parallel._permutation";
+    "nbs_parallel._permutation$rest";
+    "nbs_parallel.nbs_bct";
+    "utils.miscellaneous_utilities.pick_four_unique_nodes_quickly" ].
+Example seeded_functions_in_program :
+  forallb (fun f => match lookup program f with Some (Seeded, _) => true | _ => false end) seeded_functions = true.
 Proof. vm_compute. reflexivity. Qed.
